@@ -47,8 +47,8 @@ PROGRAMS = {
     "container": (
         "from inline_snapshot import snapshot, outsource, external\n\n\n"
         "def test_all():\n    s = snapshot({'fix': 3, 'trim': [4, 9], 'update': 2+3, 'unused': 0, 'keep': external('%s*.txt')})\n"
-        "    assert s['create'] == 1\n    assert s['fix'] == 2\n    assert 4 in s['trim']\n    assert s['update'] == 5\n"
-        "    assert s['keep'] == outsource('%s')\n" % (_h(KEEP)[:12], KEEP)
+        "    _ok = s['create'] == 1\n    _ok = s['fix'] == 2\n    _ok = 4 in s['trim']\n    _ok = s['update'] == 5\n"
+        "    _ok = s['keep'] == outsource('%s')\n" % (_h(KEEP)[:12], KEEP)
     ),
     "twofiles": None,
     "nopending": (
